@@ -320,6 +320,96 @@ func runLoopMid(f []string) string {
 	return fmt.Sprintf("exited extra=%d", atomic.LoadInt64(&pings)-atClose)
 }
 
+// runIdle: the real loop on a server with ntok served tokens (0 = none), interval iv s, left alone for waitms; then GET /health.
+// Nothing is disabled, nothing fails: the answer must be 200 however long the server has been up (a check round over zero
+// tokens is a completed round).
+func runIdle(f []string) string {
+	if len(f) != 3 {
+		return "bad-op"
+	}
+	ntok, iv, waitms := int(hx.Atoi(f[0])), int(hx.Atoi(f[1])), int(hx.Atoi(f[2]))
+	cfg, err := mkConfig(3, iv, ntok)
+	if err != nil {
+		return "err config"
+	}
+	s, err := server.VerifNew(cfg)
+	if err != nil {
+		return "err new"
+	}
+	scriptMu.Lock()
+	for name := range script {
+		delete(script, name)
+	}
+	for i := 0; i < ntok; i++ {
+		script[tokName(i)] = 'o'
+	}
+	scriptMu.Unlock()
+	done := make(chan struct{})
+	go s.VerifHealthLoop(done)
+	time.Sleep(time.Duration(waitms) * time.Millisecond)
+	rec := httptest.NewRecorder()
+	s.Handler().ServeHTTP(rec, httptest.NewRequest("GET", "/health", nil))
+	s.Close()
+	select {
+	case <-done:
+	case <-time.After(2 * time.Second):
+		return fmt.Sprintf("ok %d loop-not-ended", rec.Code)
+	}
+	return fmt.Sprintf("ok %d", rec.Code)
+}
+
+// runBusy: a token whose Ping hangs until the per-token timeout (1 s); while the check round is inside that ping, GET /health
+// must be answered at once from the last known state (here: healthy, the previous round succeeded), not wait for the round.
+func runBusy(f []string) string {
+	cfg, err := mkConfig(3, 1, 1)
+	if err != nil {
+		return "err config"
+	}
+	s, err := server.VerifNew(cfg)
+	if err != nil {
+		return "err new"
+	}
+	defer s.Close()
+	scriptMu.Lock()
+	for name := range script {
+		delete(script, name)
+	}
+	script[tokName(0)] = 'o'
+	scriptMu.Unlock()
+	if !s.VerifHealthCheck() {
+		return "err first-round"
+	}
+	scriptMu.Lock()
+	script[tokName(0)] = 't'
+	scriptMu.Unlock()
+	p0 := atomic.LoadInt64(&pings)
+	roundDone := make(chan struct{})
+	go func() { s.VerifHealthCheck(); close(roundDone) }()
+	deadline := time.Now().Add(3 * time.Second)
+	for atomic.LoadInt64(&pings) == p0 {
+		if time.Now().After(deadline) {
+			return "err round-not-started"
+		}
+		time.Sleep(time.Millisecond)
+	}
+	time.Sleep(100 * time.Millisecond) // inside the hanging ping
+	type ans struct{ code int }
+	ch := make(chan ans, 1)
+	go func() {
+		rec := httptest.NewRecorder()
+		s.Handler().ServeHTTP(rec, httptest.NewRequest("GET", "/health", nil))
+		ch <- ans{rec.Code}
+	}()
+	res := "blocked"
+	select {
+	case a := <-ch:
+		res = strconv.Itoa(a.code)
+	case <-time.After(500 * time.Millisecond):
+	}
+	<-roundDone
+	return "ok " + res
+}
+
 var setup sync.Once
 
 // Handle runs the real code on one op (fields after the property tag).  Ops must be handled one
@@ -341,6 +431,10 @@ func Handle(f []string) string {
 		return runSlow(f[1:])
 	case "loopmid":
 		return runLoopMid(f[1:])
+	case "idle":
+		return runIdle(f[1:])
+	case "busy":
+		return runBusy(f[1:])
 	}
 	return "bad-op"
 }
@@ -479,6 +573,10 @@ func Gen(w *bufio.Writer, seed uint64, tier string) {
 	fmt.Fprintln(w, "C20 slow 3 900 500 1")
 	fmt.Fprintln(w, "C20 slow 1 200 3300 1")
 	fmt.Fprintln(w, "C20 loopmid 1")
+	// (f) a server without served tokens left alone for more than three intervals; /health while a ping hangs
+	fmt.Fprintln(w, "C20 idle 0 1 3600")
+	fmt.Fprintln(w, "C20 idle 1 1 3600")
+	fmt.Fprintln(w, "C20 busy")
 	fmt.Fprintln(w, "C20 loop 0 60")
 	fmt.Fprintln(w, "C20 loop 1 60")
 	fmt.Fprintln(w, "C20 loop 1 1")
